@@ -52,6 +52,9 @@ type stopOpts struct {
 	unordered bool // items of a stopped run must be distinct members of the full result
 	errorLast bool // an error item must be the last item of the full run
 	limit     int
+	offsets   []int // long runs: also stop next to (multiples of 2^16 [and 2^12]) - offset, for each of these offsets
+	fine      bool  // ... multiples of 2^12 as well
+	edge      int   // long runs: how many positions at the start and at the end are all tried (default 300)
 }
 
 // stopMonitor runs the iterator uninterrupted, then stopped at every position.
@@ -101,8 +104,12 @@ func stopMonitor(k *K, name string, mk func() rawIter, o stopOpts) {
 	}
 	// every stop position; for very long runs: the first and last 300 and the positions next to every power of two
 	stops := make([]int, 0, len(full))
+	edge := o.edge
+	if edge == 0 {
+		edge = 300
+	}
 	for s := 0; s < len(full); s++ {
-		if len(full) <= 2000 || s < 300 || s >= len(full)-300 {
+		if len(full) <= 2000 || s < edge || s >= len(full)-edge {
 			stops = append(stops, s)
 			continue
 		}
@@ -110,6 +117,28 @@ func stopMonitor(k *K, name string, mk func() rawIter, o stopOpts) {
 			if d > 0 && d&(d-1) == 0 {
 				stops = append(stops, s)
 				break
+			}
+		}
+	}
+	if len(full) > 2000 {
+		chosen := map[int]bool{}
+		for _, s := range stops {
+			chosen[s] = true
+		}
+		exps := []int{16}
+		if o.fine {
+			exps = []int{12, 16}
+		}
+		for _, e := range exps {
+			for m := 1 << e; m < len(full)+(1<<e); m += 1 << e {
+				for _, off := range append([]int{0}, o.offsets...) {
+					for d := -2; d <= 2; d++ {
+						if s := m - off + d; s >= 0 && s < len(full) && !chosen[s] {
+							chosen[s] = true
+							stops = append(stops, s)
+						}
+					}
+				}
 			}
 		}
 	}
@@ -536,6 +565,21 @@ func c18Memory(c *Ctx) {
 			stopMonitor(k, "Node.PostOrder", func() rawIter { return raw1(root.PostOrder(), nodeKey) }, stopOpts{limit: 200000})
 			k.Count("wide_trees", 1)
 			k.Nontrivial([]byte(fmt.Sprint("wide", fan)))
+		})
+		idx++
+	}
+	// sequences long enough for an iterator that works in windows / blocks to cross several of them
+	for _, kk := range []int{1, 21, 100} {
+		c.Case(idx, func(k *K) {
+			r := k.Rand()
+			s := randSeq(r, []byte(dna10), 140000+r.IntN(50))
+			k.Input("seq_length", len(s))
+			k.Input("k", kk)
+			stopMonitor(k, "CanonicalSubsequences", func() rawIter {
+				return raw1(sequtil.CanonicalSubsequences(s, kk), func(b []byte) string { return string(b) })
+			}, stopOpts{limit: 200000, offsets: []int{kk, kk - 1, kk + 1, 2 * kk}, fine: c.Thorough, edge: c.N(30, 300)})
+			k.Count("long_sequences_stopped", 1)
+			k.Nontrivial([]byte("long canonical stops"), []byte{byte(kk)})
 		})
 		idx++
 	}
